@@ -681,7 +681,11 @@ class SyncInterpreter(BaseInterpreter[TContext, TEvent]):
                         initial_child.id,
                         state.id,
                     )
-                    self._enter_states([initial_child])
+                    # 📨 Forward the triggering event to the default descent
+                    #    too: states reached through `initial` (or as parallel
+                    #    regions, below) must see the same event and payload as
+                    #    the directly targeted state, like the async engine.
+                    self._enter_states([initial_child], event)
                 else:
                     raise InvalidConfigError(
                         f"❌ Initial state '{state.initial}' not found in "
@@ -717,7 +721,7 @@ class SyncInterpreter(BaseInterpreter[TContext, TEvent]):
                     and child.id not in explicit_child_ids
                 ]
                 if regions:
-                    self._enter_states(regions)
+                    self._enter_states(regions, event)
 
             # ⚙️ Schedule any tasks (invokes, timers).
             self._schedule_state_tasks(state)
